@@ -146,24 +146,32 @@ def gen_state(rng, n, tier):
                         if r.random() < 0.3:
                             ops.append(f"del {t[0]} {t[2]}")
                 elif variant == "reverted-write":
-                    # a failed transaction (snapshot, writes, revert) is no change at all; its target may have been read before
-                    a = r.choice(ACCTS)
-                    if r.random() < 0.5:
-                        ops.append(f"bal {a}")
+                    # a failed transaction (snapshot, writes, revert) is no change at all.  One of three shapes per history (the
+                    # shape is part of the variant name, hence of the fingerprint): an account field / a storage key written before
+                    # the block's own writes (the target may have been read before), or a storage key written after the block
+                    # itself deleted / wrote it (appended below, after the change set)
+                    shape = r.choice(["account-field", "storage", "after-own"])
+                    if shape == "after-own" and not any(t[1] == "k" for t in c):
+                        shape = "storage"
+                    variant = "reverted-write/" + shape
+                    if shape != "after-own":
+                        a = r.choice(ACCTS)
+                        if r.random() < 0.5:
+                            ops.append(f"bal {a}")
+                            ops.append("finalise")
+                        ops.append("snap")
+                        k = r.random()
+                        if shape == "storage":
+                            ops.append(f"set {a} {r.choice(KEYS)} {r.choice(VALS)}")
+                        elif k < 0.4:
+                            c0 = r.choice(list(CODES))
+                            ops.append(f"setcode {a} {c0} {CODES[c0]}")
+                        elif k < 0.75:
+                            ops.append(f"setbal {a} {r.choice([1, 5, 100])}")
+                        else:
+                            ops.append(f"setnonce {a} {r.choice([1, 7])}")
+                        ops.append("revert 0")
                         ops.append("finalise")
-                    ops.append("snap")
-                    k = r.random()
-                    if k < 0.3:
-                        c0 = r.choice(list(CODES))
-                        ops.append(f"setcode {a} {c0} {CODES[c0]}")
-                    elif k < 0.6:
-                        ops.append(f"setbal {a} {r.choice([1, 5, 100])}")
-                    elif k < 0.8:
-                        ops.append(f"setnonce {a} {r.choice([1, 7])}")
-                    else:
-                        ops.append(f"set {a} {r.choice(KEYS)} {r.choice(VALS)}")
-                    ops.append("revert 0")
-                    ops.append("finalise")
                 elif variant == "noop-account-write":
                     # an account write that leaves the account as it is must not matter
                     a = r.choice(ACCTS)
@@ -177,6 +185,13 @@ def gen_state(rng, n, tier):
             if by_delta and any(t[1] == "bal" for t in c):
                 tags.add("balance-by-delta:" + extra)
             ops += ops_of(c, order, bstate, delta=by_delta)
+            if extra == "shuffled+reads" and variant == "reverted-write/after-own":
+                # the failed transaction comes AFTER the block's own writes, on a key the block has just deleted / written
+                ks = [t for t in c if t[1] == "k"]
+                dels = [t for t in ks if c[t] is None]
+                t = r.choice(dels) if dels and r.random() < 0.7 else r.choice(ks)
+                ops += ["finalise", "snap", f"set {t[0]} {t[2]} {r.choice(VALS)}", "revert 0"]
+                tags.add("reverted-write:after-own-" + ("delete" if c[t] is None else "write"))
             ops += ["finalise", "flush"]
         hs.append(History(ops, tags=tags))
     return hs
